@@ -41,6 +41,7 @@ SigCase(sg, al) == MkCase(NCall(TypedFn(sg), [i \in 1..Len(al) |-> ArgNodes[al[i
 
 Vals == {NNum(IntV(1)), NNum(IntV(2)), NStr(kx)}
 \* (b) scoping and closures
+F3x == NLambda(<<"p", "q", "r">>, NArray(<<NArray(<<V("p")>>), NArray(<<V("q")>>), NArray(<<V("r")>>)>>))
 ScopeProgs(a, b) == {
     NBlock(<<NAssign("x", a), NBlock(<<NAssign("x", b), V("x")>>), V("x")>>),                                     \* inner block shadows, outer unchanged
     NBlock(<<NAssign("x", a), NBlock(<<V("x")>>)>>),                                                                \* visible in nested block
@@ -62,7 +63,20 @@ ScopeProgs(a, b) == {
     NBlock(<<NAssign("f", NLambda(<<>>, NAssign("x", b))), NAssign("x", a), NArray(<<NCall(V("f"), <<>>), V("x")>>)>>),    \* assignment in a call's own frame
     PA(<<NName(ka), NBlock(<<NAssign("c", NVar("")), NLambda(<<>>, V("c"))>>)>>),                                    \* function values escape
     NCall(NBlock(<<PA(<<NName(ka), NLambda(<<>>, NVar(""))>>)>>), <<>>),                                             \* keeps the context item of its definition site
-    NCall(V("map"), <<NArray(<<a, b>>), NLambda(<<"v">>, NArray(<<V("v"), NVar("")>>))>>)
+    NCall(V("map"), <<NArray(<<a, b>>), NLambda(<<"v">>, NArray(<<V("v"), NVar("")>>))>>),
+    \* a closure made (in a nested block, or by a call) while the enclosing block has bound nothing yet sees what the block binds later
+    NBlock(<<NAssign("f", NBlock(<<NLambda(<<>>, V("y"))>>)), NAssign("y", a), NCall(V("f"), <<>>)>>),
+    NBlock(<<NAssign("f", NBlock(<<NLambda(<<"n">>, NCond(NCmpOp("<=", V("n"), NNum(IntV(0))), a, NCall(V("f"), <<NNumOp("-", V("n"), NNum(IntV(1)))>>)))>>)), NCall(V("f"), <<NNum(IntV(2))>>)>>),
+    NBlock(<<NAssign("f", NCall(NLambda(<<>>, NLambda(<<>>, V("y"))), <<>>)), NAssign("y", a), NAssign("y", b), NCall(V("f"), <<>>)>>),
+    NBlock(<<NAssign("g", NBlock(<<NAssign("h", NLambda(<<>>, NArray(<<V("y"), V("h")>>))), V("h")>>)), NAssign("y", b), NPred(NCall(V("g"), <<>>), <<NNum(IntV(0))>>)>>),
+    NBlock(<<NBlock(<<NBlock(<<NAssign("f", NBlock(<<NBlock(<<NLambda(<<>>, NArray(<<V("x"), V("y")>>))>>)>>)), NAssign("x", a), NBlock(<<NAssign("y", b), NCall(V("f"), <<>>)>>)>>)>>)>>),
+    \* a partial application applied partially again keeps the bindings and the context item of the site where each argument was written
+    NBlock(<<NAssign("f", F3x), NAssign("mk", NLambda(<<>>, NBlock(<<NAssign("k", a), NPartial(V("f"), <<NPlace, V("k"), NPlace>>)>>))), NAssign("g", NCall(V("mk"), <<>>)),
+             NAssign("h", NPartial(V("g"), <<NPlace, b>>)), NCall(V("h"), <<NNum(IntV(1))>>)>>),
+    NBlock(<<NAssign("f", F3x), NAssign("k", a), NAssign("g", NPartial(V("f"), <<NPlace, V("k"), NPlace>>)),
+             NBlock(<<NAssign("k", b), NAssign("h", NPartial(V("g"), <<NPlace, V("k")>>)), NCall(V("h"), <<NNum(IntV(1))>>)>>)>>),
+    NBlock(<<NAssign("f", F3x), NAssign("g", PA(<<NName(ka), NBlock(<<NPartial(V("f"), <<NPlace, NVar(""), NPlace>>)>>)>>)), NAssign("h", NPartial(NPred(V("g"), <<NNum(IntV(0))>>), <<a, NPlace>>)), NCall(V("h"), <<b>>)>>),
+    NBlock(<<NAssign("f", F3x), NAssign("k", a), NAssign("g", NPartial(V("f"), <<V("k"), NPlace, NPlace>>)), NAssign("k", b), NAssign("h", NPartial(V("g"), <<V("k"), NPlace>>)), NAssign("k", NNum(IntV(0))), NCall(V("h"), <<V("k")>>)>>)
 }
 
 \* (b') an assignment is an expression: wherever it stands, it binds in the frame of the nearest enclosing block or
